@@ -1,3 +1,4 @@
 SPECIFICATION Spec
+CONSTANT Async = FALSE
 INVARIANT ExportCases
 CHECK_DEADLOCK FALSE
